@@ -1,5 +1,6 @@
 import CorsVerif.Proofs.Validate
 import CorsVerif.Proofs.Twins
+import CorsVerif.Proofs.Respell
 import CorsVerif.Proofs.C06Assembly
 /-
   C15 — Config lists are sets: order, duplicates and header-name case are irrelevant.
@@ -343,6 +344,62 @@ theorem C15_accept_members (ext : Ext) (c1 c2 : Config)
     exact ⟨a, b, c, d, fun x hx => e x ((ho x).mp hx), fun x hx => f x ((hme x).mp hx),
       fun x hx => g x ((hrq x).mp hx), fun x hx => h x ((hrs x).mp hx)⟩
 
+/-! ### Re-spelt configurations: accepted together, and then the same handler -/
+
+open Validate Folds TreeRT in
+theorem accept_of_respelt (ext : Ext) {c1 c2 : Config} (h : Respelt c1 c2)
+    (h1 : Validate.allErrs ext c1 = []) : Validate.allErrs ext c2 = [] := by
+  rw [allErrs_nil_iff] at h1 ⊢
+  obtain ⟨a, b, c, d, e, f, g, k⟩ := h1
+  have e0 : Validate.statusErrs c2 = Validate.statusErrs c1 := by unfold Validate.statusErrs; rw [h.status]
+  have e1 : Validate.pnaErrs c2 = Validate.pnaErrs c1 := by unfold Validate.pnaErrs; rw [h.pna, h.pnaNoCors]
+  have e2 : Validate.maxAgeErrs c2 = Validate.maxAgeErrs c1 := by unfold Validate.maxAgeErrs; rw [h.maxAge]
+  have e3 : Validate.pnaAny c2 = Validate.pnaAny c1 := by unfold Validate.pnaAny; rw [h.pna, h.pnaNoCors]
+  refine ⟨e0 ▸ a, e1 ▸ b, e2 ▸ c, ?_, ?_, ?_, ?_, ?_⟩
+  · intro h2
+    cases h1 : c1.origins with
+    | nil => exact d h1
+    | cons x t => have := (h.origins x).mp (by rw [h1]; exact List.mem_cons_self); rw [h2] at this; cases this
+  · intro raw hraw
+    rw [e3, ← h.credentialed, ← h.tolInsecure, ← h.tolPSL]
+    exact e raw ((h.origins raw).mpr hraw)
+  · intro n hn
+    rw [methodErr_nil_iff]
+    rcases h.methods21 n hn with ⟨n', hn', hr⟩ | hd
+    · rw [hr.methodClean, ← methodErr_nil_iff]; exact f n' hn'
+    · exact hd.clean
+  · intro n hn
+    rw [reqHdrErr_nil_iff]
+    obtain ⟨n', hn', hr⟩ := h.req21 n hn
+    rw [hr.reqClean, ← reqHdrErr_nil_iff]; exact g n' hn'
+  · intro n hn
+    rw [resHdrErr_nil_iff]
+    rcases h.res21 n hn with ⟨n', hn', hr⟩ | hd
+    · rw [hr.resClean, ← h.credentialed, ← resHdrErr_nil_iff]; exact k n' hn'
+    · exact hd.clean _
+
+/-- **C15 (acceptance of re-spelt configurations).** Configurations that differ only in order,
+repetition, the letter case of header names, the spelling of normalisable methods and in listing
+safelisted methods / response-header names are accepted or rejected together. -/
+theorem C15_accept_respelt (ext : Ext) {c1 c2 : Config} (h : Respelt c1 c2) :
+    (∃ i1, newInternalConfig ext c1 = .ok i1) ↔ (∃ i2, newInternalConfig ext c2 = .ok i2) := by
+  have hacc : ∀ c : Config, (∃ i, newInternalConfig ext c = .ok i) ↔ Validate.allErrs ext c = [] := by
+    intro c
+    constructor
+    · rintro ⟨i, hi⟩; exact ((accepted_iff ext c i).mp hi).1
+    · intro h; exact ⟨_, (accepted_iff ext c _).mpr ⟨h, rfl⟩⟩
+  rw [hacc, hacc]
+  exact ⟨accept_of_respelt ext h, accept_of_respelt ext h.symm⟩
+
+/-- **C15, closed form.** If `c1` is accepted and `c2` says the same in other words (`Respelt`), then
+`c2` is accepted as well and the two handlers are the same function. No hypothesis about `c2`'s
+acceptance is left. -/
+theorem C15_respelt (ext : Ext) (hext : ∀ h info, ext.ip6 h = some info → h.head? ≠ some 42)
+    {c1 c2 : Config} (h : Respelt c1 c2) (i1 : ICfg) (a1 : newInternalConfig ext c1 = .ok i1) :
+    ∃ i2, newInternalConfig ext c2 = .ok i2 ∧ Serve.serve i1 = Serve.serve i2 := by
+  obtain ⟨i2, a2⟩ := (C15_accept_respelt ext h).mp ⟨i1, a1⟩
+  exact ⟨i2, a2, C15_full ext hext h.twin i1 i2 a1 a2⟩
+
 /-! ### Non-vacuity: a concrete pair of accepted twins that differ in order, multiplicity, letter
 case, method spelling and dropped entries -/
 
@@ -390,6 +447,21 @@ example : Twin tw1 tw2 where
   resStar := by decide
   res := fun x => by
     rw [exists_iff_mem_filter_map, exists_iff_mem_filter_map]; exact mem_iff_of_subsets (by decide) x
+example : Respelt tw1 tw2 where
+  credentialed := rfl
+  maxAge := rfl
+  status := rfl
+  pna := rfl
+  pnaNoCors := rfl
+  tolInsecure := rfl
+  tolPSL := rfl
+  origins := mem_iff_of_subsets (by decide)
+  methods12 := by decide
+  methods21 := by decide
+  req12 := by decide
+  req21 := by decide
+  res12 := by decide
+  res21 := by decide
 example : ∃ i, newInternalConfig extTw tw1 = .ok i := by
   unfold newInternalConfig; rw [if_pos (by decide)]; exact ⟨_, rfl⟩
 example : ∃ i, newInternalConfig extTw tw2 = .ok i := by
@@ -403,5 +475,7 @@ example : ∀ h info, extTw.ip6 h = some info → h.head? ≠ some 42 := fun _ _
 #print axioms C15_perm
 #print axioms allErrs_nil_iff
 #print axioms C15_accept_members
+#print axioms C15_accept_respelt
+#print axioms C15_respelt
 
 end Cors
